@@ -32,7 +32,7 @@ func init() {
 	core.Register(&core.Monitor{
 		ID:   "C09",
 		Race: true,
-		Rule: "a run = two real muxers over a scripted in-memory connection with S concurrent sender streams (protocol x role x side), payload sizes from {1..8,65534,65535} and random, read fragmentation scripts (PRNG chunks, enumerated split points) and yield/sleep perturbation before the send lock; plus hostile-segment scenarios against a raw peer. A run is non-trivial when >= 2 streams interleaved on one wire direction or a fault scenario reached its verdict; distinct = wire interleaving signature (hash of the stream-id order on the wire) or fault scenario name",
+		Rule: "a run = two real muxers over a scripted in-memory connection with S concurrent sender streams (protocol x role x side), payload sizes from {1..8,65534,65535} and random, read fragmentation scripts (PRNG chunks, enumerated split points) and yield/sleep perturbation before the send lock; plus hostile-segment scenarios against a raw peer, and registration-table changes on a live full-duplex muxer (one protocol/direction unregistered, re-registered, every other registration must keep receiving; a segment for the removed one must close the connection). A run is non-trivial when >= 2 streams interleaved on one wire direction or a fault scenario reached its verdict; distinct = wire interleaving signature (hash of the stream-id order on the wire) or fault scenario name",
 		MinNontrivial: 20,
 		RaceAnchors:   []string{"muxer.(*Muxer)", "muxer.NewSegment", "muxer.(*Segment)"},
 		Assumptions: []string{
@@ -173,6 +173,7 @@ func run(c *core.Ctx) {
 	enumSplits(c, sigs)
 	c.Note("distinct_wire_interleavings", len(sigs))
 	faults(c)
+	unregisterScenarios(c)
 	segmentLimits(c)
 }
 
